@@ -30,7 +30,9 @@ DEPTH = z3.Function("tok_depth", I, I)
 NTOK = z3.Int("tok_n")
 
 A_STREAM = ("C15 abstraction: Parser.lexer is an abstract one-shot token stream tok[0..N) (symbolic N, symbolic type/value per token); "
-            "next(lexer, None) yields the tokens in order, then None for ever, or raises ValueError (lexer error) at any read")
+            "next(lexer, None) yields the tokens in order, then None for ever, or raises ValueError (lexer error) at any read "
+            "[for the real Lexer this is the verified simulation step of the linked contracts Parser._read_token / Parser.__init__ (contracts/C15.py Part 3b) "
+            "over the ghost definitions of the token stream of a text]")
 A_DEPTH = "ghost definition: DEPTH(i+1) = DEPTH(i) + (1 if tok[i] is '(' else -1 if tok[i] is ')' else 0), DEPTH(0) = 0"
 A_HEAP = ("C15 abstraction: AST nodes built by the parser are references into a ghost heap (allocation order); ASTNode.add_child is used through its "
           "contract (parent set, appended last, nothing else changed); the `tokens` lists are a write-only sink")
@@ -116,6 +118,40 @@ class TokVal:
         return TVAL(self.idx)
 
 
+class TokenValue:
+    """`.value` of a token seen through Lexer.__next__'s contract: a number part (FLOAT tokens) and a text part (all others)"""
+
+    def __init__(self, real, text):
+        self.real_z, self.text = real, text
+
+    def __pyvc_snapshot__(self, memo):
+        return self
+
+
+def token_type_z(tok):
+    """z3 Int: the TokenType value of a Token object (concrete member or symbolic)"""
+    t = tok.fields["type"]
+    return t.z if isinstance(t, SymEnum) else z3.IntVal(t.value)
+
+
+def token_text(tok):
+    """the text part of a token's value (str / symbolic string) or None"""
+    from .ext_C15_text import SStr
+
+    v = tok.fields["value"]
+    if isinstance(v, TokenValue):
+        return v.text
+    return v if isinstance(v, (str, SStr)) else None
+
+
+def token_real(tok):
+    """the number part of a token's value (z3 Real) or None"""
+    v = tok.fields["value"]
+    if isinstance(v, TokenValue):
+        return v.real_z
+    return to_z3(v, "real") if kind_of(v) in ("real", "int") else None
+
+
 class UpperLit:
     """str.upper(token.value) for a string-valued token: compared with literals through TUP."""
 
@@ -175,8 +211,52 @@ def _state(eng):
 _prev_next = models.BUILTIN_MODELS.get(next)
 
 
+TPOS = z3.Function("tok_start", I, I)  # ghost: TPOS(k) = look-ahead index of the Lexer before it lexes token k
+A_LINK = ("ghost definitions (token stream of a text): TPOS(0) = 0, TPOS(k+1) = the Lexer's look-ahead after the token lexed at TPOS(k); "
+          "TTYPE(k) / TVAL(k) = type / float value of that token (well defined: Lexer.__next__'s postcondition gives token and new look-ahead as "
+          "functions of the text and the old look-ahead); NTOK = least k such that only blanks follow TPOS(k) (exists: every token consumes at least "
+          "one character); the instance for k is added when token k is handed out")
+
+
+def _m_next_linked(eng, it, args):
+    """next(lexer[, None]) on a REAL Lexer (fields r / next_char / lineno / column) that carries the ghost counter g_cur: the real
+    Lexer.__next__ is used through its contract; ghost code advances the counter, stamps the token with its index and adds the
+    definitional instances of the token-stream vocabulary for it"""
+    from . import ext_C15_text as T
+
+    if len(args) == 2 and args[1] is not None or len(args) > 2:
+        raise Unsupported("next(lexer, default) with a default other than None")
+    eng.assumptions.add(A_LINK)
+    eng.assumptions.add(A_DEPTH)
+    c = to_z3(it.fields["g_cur"], "int")
+    try:
+        tok = eng.call(eng.getattr_(it, "__next__"), [], {})
+    except ProgExc as e:
+        if isinstance(e.cls, type) and issubclass(e.cls, StopIteration) and len(args) == 2:
+            tok = None
+        else:
+            raise
+    eng.assume(depth_step(c))  # definitional instance for the token being consumed (as in the abstract model)
+    it.fields["g_cur"] = Sym(z3.simplify(c + 1), "int")
+    if tok is not None:
+        if not (isinstance(tok, Obj) and "type" in tok.fields):
+            raise Unsupported("Lexer.__next__ returned something that is not a Token")
+        k = z3.simplify(c + 1)
+        tok.fields["g_idx"] = Sym(k, "int")
+        p, sl = it.fields["r"].pos, T.as_slice(it.fields["next_char"])
+        if sl is None:
+            raise Unsupported("Lexer.next_char is not one piece of the text")
+        facts = [TTYPE(k) == token_type_z(tok), TPOS(k + 1) == p - (sl[1] - sl[0])]
+        if token_real(tok) is not None:
+            facts.append(TVAL(k) == token_real(tok))
+        eng.assume(z3.And(*facts))
+    return tok
+
+
 def _m_next(eng, args, kwargs):
     it = args[0]
+    if isinstance(it, Obj) and "g_cur" in it.fields and "r" in it.fields:
+        return _m_next_linked(eng, it, args)
     if isinstance(it, Obj) and "g_cur" in it.fields:
         if len(args) == 2 and args[1] is not None or len(args) > 2:
             raise Unsupported("next(lexer, default) with a default other than None on the abstract token stream")
@@ -202,12 +282,118 @@ def _m_next(eng, args, kwargs):
     raise Unsupported("next()")
 
 
+# ------------------------------------------------- abstract AST for walk_ast
+# An immutable AST given by ghost functions over node references R0 .. ENDALL-1 (0 = None), numbered in DOCUMENT ORDER:
+#   W_KIND(x) ASTType value, W_NCH(x) number of children, W_CHILD(x, j) the j-th child, W_PAR(x) parent, W_END(x) first reference
+#   behind the subtree of x, W_LABEL(x) code of a TREE node's value, W_V[c](x) the four numbers of a NODE,
+#   W_RK(x) number of NODE-kind references before x, W_ENCL(x) the TREE node x lies in (0 = none).
+W_KIND = z3.Function("ast_kind", I, I)
+W_NCH = z3.Function("ast_nchildren", I, I)
+W_CHILD = z3.Function("ast_child", I, I, I)
+W_PAR = z3.Function("ast_parent", I, I)
+W_END = z3.Function("ast_end", I, I)
+W_LABEL = z3.Function("ast_label", I, I)
+W_V = [z3.Function("ast_" + c, I, z3.RealSort()) for c in ("x", "y", "z", "r")]
+W_RK = z3.Function("ast_points_before", I, I)
+W_ENCL = z3.Function("ast_enclosing_tree", I, I)
+A_WALK = ("C15 abstraction (walk_ast): the AST is an immutable tree given by ghost functions over node references (kind, children, "
+          "parent, value); `node.children` is the sequence child(x, 0 .. nch(x)), `node.value` the four numbers of a NODE or the text of a TREE label "
+          "(compared with literals through an injective code); a write to an AST node is refused")
+
+
+class NodeVal(tuple):
+    """`.value` of an abstract AST node: unpacks like the four numbers of a NODE, compares with a str like a TREE label"""
+
+    def __new__(cls, ref):
+        o = super().__new__(cls, [Sym(f(ref), "real") for f in W_V])
+        o.ref = ref
+        return o
+
+    def __pyvc_compare__(self, eng, op, a, b):
+        import ast as _ast
+
+        other = b if a is self else a
+        if isinstance(op, (_ast.Eq, _ast.NotEq)) and isinstance(other, str):
+            r = _sb(W_LABEL(self.ref) == str_code(other))
+            return r if isinstance(op, _ast.Eq) else eng.unop(_ast.Not(), r)
+        return NotImplemented
+
+
+class Kids:
+    """`.children` of an abstract AST node (possibly reversed): an immutable sequence"""
+
+    def __init__(self, ref, rev=False):
+        self.ref, self.rev = ref, rev
+
+    def __pyvc_snapshot__(self, memo):
+        return self
+
+    def __pyvc_sequence__(self, eng):
+        n = W_NCH(self.ref)
+        if self.rev:
+            return n, (lambda k: Sym(W_CHILD(self.ref, n - 1 - to_z3(k, "int")), "oref"))
+        return n, (lambda k: Sym(W_CHILD(self.ref, to_z3(k, "int")), "oref"))
+
+    def __pyvc_getattr__(self, eng, name):
+        raise Unsupported(f"children.{name} on the abstract AST (the AST is immutable)")
+
+
+_prev_reversed = models.BUILTIN_MODELS.get(reversed)
+
+
+def _m_reversed(eng, args, kwargs):
+    if len(args) == 1 and isinstance(args[0], Kids):
+        return Kids(args[0].ref, not args[0].rev)
+    return _prev_reversed(eng, args, kwargs)
+
+
+def walk_extend_hook(eng, recv, src):
+    """contract option extend_hook: `lst.extend(<pairs over a symbolic sequence>)` on a symbolic list of tuples gives a list whose
+    columns are fresh constants DEFINED pointwise (old entries kept, new entries = the source's, in order) instead of lambda terms"""
+    from .values import Iter
+
+    inner = src
+    if isinstance(inner, Iter):
+        if inner.consumed:
+            return None
+        inner.consumed = True
+        inner = inner.seq
+    if not (isinstance(inner, PList) and inner.items is None and recv.items is None and inner.tup == recv.tup and len(inner.kinds) == len(recv.kinds)):
+        raise Unsupported("extend of a symbolic list by this kind of iterable")
+    from .values import sort_of, zint
+
+    n0, k = zint(recv.n), zint(inner.n)
+    i = z3.Int(fresh_name("ex"))
+    cols = []
+    for c0, c1, k0 in zip(recv.cols, inner.cols, recv.kinds):
+        c = z3.Const(fresh_name(recv.name + "_ext"), z3.ArraySort(I, sort_of(k0)))
+        new_elem = z3.simplify(z3.Select(c1, i - n0))
+        eng.assume(z3.ForAll([i], z3.Implies(z3.And(i >= 0, i < n0), z3.Select(c, i) == z3.Select(c0, i)), patterns=[z3.Select(c, i)]))
+        eng.assume(z3.ForAll([i], z3.Implies(z3.And(i >= n0, i < n0 + k), z3.Select(c, i) == new_elem), patterns=[z3.Select(c, i)]))
+        cols.append(c)
+    recv.cols = cols
+    recv.n = z3.simplify(n0 + k)
+    eng.assumptions.add("list.extend on a symbolic list: the result is the old entries followed by the source's entries in order (defined pointwise)")
+    return None
+
+
 # ------------------------------------------------------------ scalar attrs
 _prev_scalar_attr = models.scalar_attr
 
 
 def _scalar_attr(eng, v, name):
     st = _state(eng)
+    if st is not None and st.get("walk") and isinstance(v, Sym) and v.kind == "oref":
+        eng.assumptions.add(A_WALK)
+        if name not in ("type", "value", "children"):
+            raise Unsupported(f"attribute {name} of an abstract AST node (walk_ast)")
+        if not eng.spec_mode and not eng.branch(_sb(v.z != 0)):
+            raise ProgExc(AttributeError, f"'NoneType' object has no attribute '{name}'")
+        if name == "type":
+            return SymEnum(W_KIND(v.z), _mod().ASTType)
+        if name == "value":
+            return NodeVal(v.z)
+        return Kids(v.z)
     if st is not None and isinstance(v, Sym):
         if v.kind == "oref" and name in ("type", "value", "lineno", "column"):
             if not eng.spec_mode and not eng.branch(_sb(v.z != 0)):
@@ -430,6 +616,7 @@ def install():
     ProgExc.__pyvc_getattr__ = _exc_getattr
     m = _mod()
     models.EXTRA_MODELS[next] = _m_next
+    models.EXTRA_MODELS[reversed] = _m_reversed
     models.EXTRA_MODELS[str.upper] = _m_upper
     models.EXTRA_MODELS[m.ASTNode] = _m_astnode
     models.EXTRA_MODELS[m.AST] = _m_ast
